@@ -19,3 +19,7 @@ Lemma sticky_interleaved_observed : forall l,
 Proof.
   intros l. destruct observed_guards_all as [-> ->]. split; exact (io_green_is_sticky l).
 Qed.
+
+(* the key of the conditional-request cache, observed on the running code *)
+Lemma observed_mk_key_separates : mk_key_separates_resources = true.
+Proof. reflexivity. Qed.
